@@ -130,7 +130,12 @@ func configSinks(c *Ctx, rule string) []sinkResult {
 		return r
 	}
 	var out []sinkResult
-	maxEnv := func(sym string) an.Env { return an.Env{sym: an.Rng{Lo: ratS(4), Hi: ratS(1800)}} }
+	// the domain of max_interval that the dependent sinks are evaluated under: the documented one for
+	// C02 (which checks separately that the parser accepts exactly that domain); for C03 the domain the
+	// parser itself accepts (derived below from the MaxInterval observations), so that widening the
+	// accepted intervals is seen to push derived lifetimes out of their wire fields
+	maxLo, maxHi := ratS(4), ratS(1800)
+	maxEnv := func(sym string) an.Env { return an.Env{sym: an.Rng{Lo: maxLo, Hi: maxHi}} }
 	pd := c.P.Func("internal/config", "parseDuration")
 	inlinePD := map[*ssa.Function]bool{pd: true}
 
@@ -166,6 +171,22 @@ func configSinks(c *Ctx, rule string) []sinkResult {
 			}
 		}
 		out = append(out, res...)
+		if strings.HasPrefix(rule, "R-C03") {
+			var lo, hi *big.Rat
+			for _, o := range res[0].obs {
+				if rg, ok := obsRange(o); ok {
+					if lo == nil || rg.Lo.Cmp(lo) < 0 {
+						lo = rg.Lo
+					}
+					if hi == nil || rg.Hi.Cmp(hi) > 0 {
+						hi = rg.Hi
+					}
+				}
+			}
+			if lo != nil && hi != nil {
+				maxLo, maxHi = lo, hi
+			}
+		}
 	}
 	// parseMinInterval / parseDefaultLifetime: standalone with the max contract
 	if f := c.needFunc(rule, "internal/config", "parseMinInterval"); f != nil {
@@ -266,14 +287,18 @@ func runC02(c *Ctx) {
 
 // c02Glue: parseInterface threads the validated max interval and the raw keys
 // into the helper parsers, and stores their results in the like-named fields.
-func c02Glue(c *Ctx) {
+func c02Glue(c *Ctx) { configGlue(c, "R-C02-1") }
+
+// configGlue is shared with C05: the interval pair stored in the Interface is the pair the helper
+// parsers validated against each other.
+func configGlue(c *Ctx, glueRule string) {
 	pi := c.P.Func("internal/config", "parseInterface")
 	if pi == nil {
 		return
 	}
 	fn := c.fname(pi)
 	done := map[string]bool{}
-	for _, p := range successPaths(c, "R-C02-1", pi, nil) {
+	for _, p := range successPaths(c, glueRule, pi, nil) {
 		flds := raHeader(p.Results[0])
 		if flds == nil || flds["MaxInterval"] == nil || monitorPath(p) {
 			continue
@@ -310,7 +335,7 @@ func c02Glue(c *Ctx) {
 				continue
 			}
 			done[key] = true
-			c.R.Check(ok, "R-C02-1", key, fn, c.pos(p.Ret.Pos()), fact,
+			c.R.Check(ok, glueRule, key, fn, c.pos(p.Ret.Pos()), fact,
 				fmt.Sprintf("%s(<raw %s>, <the validated max interval>)#0", g.callee, g.rawArg), "a derived default or bound is computed from something other than the configured, validated max_interval / the key's own raw value")
 		}
 	}
@@ -323,7 +348,7 @@ func c02Glue(c *Ctx) {
 			}
 			if an.ObjIs(f, PkgConfig, "", "parseRDNSS") || an.ObjIs(f, PkgConfig, "", "parseDNSSL") || an.ObjIs(f, PkgPlugin, "", "NewPREF64") {
 				e := c.XO.Of(ci.Common().Args[1])
-				c.R.Check(e.Op == an.OpParam && e.Idx == 1, "R-C02-1", c.fname(pp)+":max-to-"+f.Name(), c.fname(pp), c.pos(ci.Pos()), f.Name()+"(_, "+e.String()+")", "its maxInterval parameter", "3·max defaults computed from another value")
+				c.R.Check(e.Op == an.OpParam && e.Idx == 1, glueRule, c.fname(pp)+":max-to-"+f.Name(), c.fname(pp), c.pos(ci.Pos()), f.Name()+"(_, "+e.String()+")", "its maxInterval parameter", "3·max defaults computed from another value")
 			}
 		}
 	}
